@@ -1505,3 +1505,11 @@ fire("handle-derives-from-a-fresh-runtime", ["C14", "C16", "C18"], "R-HI", RT,
 silent("logging-disabled-derives-in-place", ["C14", "C16", "C18", "C12"], LG,
        "    return runtime.handle(LogRequest, _disabled_logging_handler)",
        "    return runtime.current_runtime().handle(LogRequest, handler=_disabled_logging_handler)")
+silent("fingerprint-sort-keys", ["C01", "C02", "C03", "C15", "C17"], T,
+       "        return json.dumps(\n            [{key: get_dotted_key(key, options)} for key in sorted(self.keys(options))]\n        ).encode()",
+       "        return json.dumps(\n            [{key: get_dotted_key(key, options)} for key in sorted(self.keys(options))],\n            sort_keys=True,\n        ).encode()",
+       note="the canonical form F16 asks for: no report, and no KNOWN-FINDING either")
+fire("fingerprint-sort-keys-false", ["C03"], "R-FP", T,
+     "        return json.dumps(\n            [{key: get_dotted_key(key, options)} for key in sorted(self.keys(options))]\n        ).encode()",
+     "        return json.dumps(\n            [{key: get_dotted_key(key, options)} for key in sorted(self.keys(options))],\n            sort_keys=False, default=repr,\n        ).encode()",
+     note="a default= hook lets unserialisable values through as their repr (addresses, set orders): not a deterministic function of the values")
